@@ -307,7 +307,9 @@ def w2(e: Engine, rep: Report):
     for w in writes:
         code_e, sep_e = w.args[0].elts[:2]
         term_e = w.args[0].elts[-1]
-        in_loop = any(isinstance(p, ast.For) and any(
+        # written once per line of a loop / comprehension: a non-final line
+        in_loop = any(isinstance(p, (ast.For, ast.ListComp,
+                                     ast.GeneratorExp)) and any(
             x is w for x in ast.walk(p)) for p in walk_own(ctx.func.node))
         rep.evaluations += 1
         ok = isinstance(sep_e, ast.Constant) and \
